@@ -9,11 +9,12 @@
                the old one, or the call is a delete-rows call             (the only edits that keep a cache)
    Inv_cache   the cache is an exact optimality certificate of the LP as it now stands -
                preserved under the oracle hypothesis (an OPTIMAL answer comes with a
-               certificate) and, for delete-rows calls that keep the cache, the hypothesis
-               that the restricted cache certifies the reduced LP        (api_step_cache_partial)
+               certificate); delete-rows calls that keep the (repacked) cache keep a
+               certificate because the code keeps it only for rows with pi = 0
+               (DelRowsCert.v)                                           (api_step_cache, api_run_cache)
    resolve_eq_fresh   two certified answers for the same LP have the same value. *)
 From Coq Require Import String Ascii ZArith.
-From QSX Require Import Store.Spec Store.SpecInv Store.Api.
+From QSX Require Import Store.Spec Store.SpecInv Store.SpecValid Store.Api Store.DelRowsCert.
 From QSX Require Import LP.Cert LP.CertSound LP.Unique.
 Local Open Scope Q_scope.
 
@@ -74,10 +75,10 @@ Qed.
 Section WithM.
 Variable M : Q.
 
-Lemma inv_intro p b c q f :
+Lemma inv_intro p b c q f rn :
   (forall b', b = Some b' -> length (ba_c b') = ncol p /\ length (ba_r b') = nrow p) ->
   (forall c', c = Some c' -> dims_ok_c p c') ->
-  Inv_dims {| a_p := p; a_basis := b; a_cache := c; a_qstatus := q; a_factorok := f |}.
+  Inv_dims {| a_p := p; a_basis := b; a_cache := c; a_qstatus := q; a_factorok := f; a_rn := rn |}.
 Proof. intros A B. split; simpl; assumption. Qed.
 
 Lemma inv_free s : Inv_dims s -> Inv_dims (free_cache s).
@@ -282,7 +283,7 @@ Proof.
   destruct (match a_basis s, a_cache s with Some _, Some _ => (negb d || a_factorok s)%bool | _, _ => false end); [exact I|].
   assert (G : Inv_dims {| a_p := a_p s; a_basis := Some (an_basis r);
                           a_cache := if (an_status r =? ST_OPTIMAL)%Z then Some (an_sol r) else None;
-                          a_qstatus := an_status r; a_factorok := true |}).
+                          a_qstatus := an_status r; a_factorok := true; a_rn := an_rn r |}).
   { apply inv_intro.
     - intros b H; inversion H; subst. split; assumption.
     - intros c H. destruct (an_status r =? ST_OPTIMAL)%Z; [inversion H; subst; exact R3|discriminate]. }
@@ -407,36 +408,108 @@ Qed.
 Lemma cert_to_ulp p p' c : to_ulp p' = to_ulp p -> cert M p c -> cert M p' c.
 Proof. unfold cert. intros E H. rewrite E. exact H. Qed.
 
-(* side conditions of a step: oracle hypotheses, and for the delete-rows calls (the only edits that can keep a
-   cache while changing the LP) that the repacked cache certifies the reduced LP.  DESIGN 10 #18: the code keeps
-   the cache when the deleted basic rows have pi <= 0, the theorem would need pi = 0 - hence a hypothesis. *)
+(* ---- delete-rows calls that keep the cache keep a certificate --------------------------------- *)
+
+Lemma flagged_range f : forall i0 n, Forall (fun k => (i0 <= k < i0 + n)%nat) (flagged f i0 n).
+Proof.
+  induction f as [|a f IH]; intros i0 [|n]; simpl; try constructor.
+  assert (T : Forall (fun k => (i0 <= k < i0 + S n)%nat) (flagged f (S i0) n)).
+  { eapply Forall_impl; [|apply IH]. simpl. intros k Hk. lia. }
+  destruct (a =? 1)%Z; [constructor; [lia|exact T]|exact T].
+Qed.
+
+Lemma flagged_NoDup f : forall i0 n, NoDup (flagged f i0 n).
+Proof.
+  induction f as [|a f IH]; intros i0 [|n]; simpl; try constructor.
+  destruct (a =? 1)%Z; [|apply IH]. constructor; [|apply IH].
+  intros C. pose proof (flagged_range f (S i0) n) as R. rewrite Forall_forall in R. specialize (R _ C). lia.
+Qed.
+
+(* what a successful delete-rows call deletes: distinct valid rows, with the reference semantics del_rows_n *)
+Lemma pstep_delrows_spec p o p' t :
+  is_delrows o = true -> pstep M p o = (p', ROk t) ->
+  p' = del_rows_n p (del_rows_of p o) /\ NoDup (del_rows_of p o) /\ Forall (fun i => (i < nrow p)%nat) (del_rows_of p o).
+Proof.
+  destruct o; simpl; try discriminate; intros _ H; unfold edit in H.
+  - unfold del_rows in H. destruct (idxs (nrow p) l) as [ds|] eqn:E; [|discriminate]. destruct (nodupn ds) eqn:N; [|discriminate].
+    inversion H; subst. split; [reflexivity|]. split; [apply nodupn_NoDup; exact N|eapply idxs_lt; exact E].
+  - inversion H; subst. split; [reflexivity|]. split; [apply flagged_NoDup|].
+    eapply Forall_impl; [|apply flagged_range]. simpl. intros k Hk. lia.
+  - unfold del_named_rows in H. destruct (find_names (rownames p) l) as [ds|] eqn:E; [|discriminate]. destruct (nodupn ds) eqn:N; [|discriminate].
+    inversion H; subst. split; [reflexivity|]. split; [apply nodupn_NoDup; exact N|].
+    pose proof (find_names_lt _ _ _ E) as F. unfold rownames in F. rewrite map_length in F. exact F.
+Qed.
+
+(* ILLlib_delrows keeps the (repacked) cache only when every deleted row has pi = 0: the repacked cache certifies
+   the reduced LP (DelRowsCert.cert_del_rows_n).  The condition on the stored basis (basis_ok) is not used. *)
+Lemma eff_delrows_cache s ds :
+  Inv_dims s -> Inv_cache M s -> NoDup ds -> Forall (fun i => (i < nrow (a_p s))%nat) ds ->
+  Inv_cache M (eff_delrows s (del_rows_n (a_p s) ds) ds).
+Proof.
+  intros [_ B] I ND R. unfold eff_delrows.
+  set (bok := match a_basis s with Some b => forallb _ ds | None => false end).
+  destruct (a_cache s) as [c|] eqn:C.
+  - destruct (bok && forallb (fun i => Qeq_bool (nth i (ca_pi c) 0) 0) ds)%bool eqn:E.
+    + intros c' H. cbn [a_cache] in H. inversion H; subst c'. unfold cert. cbn [a_p ca_x ca_slack ca_pi ca_val].
+      apply andb_true_iff in E. destruct E as [_ E]. destruct (B c eq_refl) as (B1 & _).
+      apply (cert_del_rows_n M (a_p s) ds (ca_x c) (ca_slack c) (ca_pi c) (ca_val c) B1 ND R).
+      * rewrite forallb_forall in E. apply Forall_forall. intros k Hk. apply Qeq_bool_iff. apply E. exact Hk.
+      * apply I. exact C.
+    + intros c' H. discriminate H.
+  - intros c' H. discriminate H.
+Qed.
+
+Lemma del_rows_n_nil p : del_rows_n p [] = p.
+Proof. reflexivity. Qed.
+
+Theorem api_edit_cache s o : Inv_dims s -> Inv_cache M s -> Inv_cache M (fst (api_edit M s o)).
+Proof.
+  intros D I. destruct (snd (api_edit M s o)) as [t| |] eqn:R.
+  - destruct (edit_cache_cases s o t R) as [[C _]|[[E C]|F]].
+    + intros c Hc. rewrite C in Hc. discriminate.
+    + intros c Hc. rewrite C in Hc. eapply cert_to_ulp; [exact E|]. apply I. exact Hc.
+    + unfold api_edit in *. destruct (pstep M (a_p s) o) as [p' r] eqn:P. destruct r as [t'| |]; simpl in R; try discriminate.
+      destruct (pstep_delrows_spec _ _ _ _ F P) as (E & ND & RG). cbn [fst].
+      assert (G : forall ds, ds = del_rows_of (a_p s) o -> ds <> [] -> Inv_cache M (eff_delrows s p' ds)).
+      { intros ds -> _. rewrite E. apply eff_delrows_cache; assumption. }
+      assert (Z : del_rows_of (a_p s) o = [] -> p' = a_p s) by (intros Z; rewrite E, Z; reflexivity).
+      destruct o; try discriminate F; cbn [apply_effect]; cbn [del_rows_of] in *.
+      * destruct (match idxs (nrow (a_p s)) l with Some ds => ds | None => [] end) as [|k ds] eqn:L.
+        -- rewrite (Z eq_refl). destruct (a_basis s); intros c Hc; simpl in Hc; try discriminate. apply I. exact Hc.
+        -- apply G; [reflexivity|discriminate].
+      * destruct (flagged flags 0 (nrow (a_p s))) as [|k ds] eqn:L.
+        -- rewrite (Z eq_refl). intros c Hc. apply I. exact Hc.
+        -- apply G; [reflexivity|discriminate].
+      * destruct (match find_names (rownames (a_p s)) l with Some ds => ds | None => [] end) as [|k ds] eqn:L.
+        -- rewrite (Z eq_refl). intros c Hc. apply I. exact Hc.
+        -- apply G; [reflexivity|discriminate].
+  - assert (E : fst (api_edit M s o) = s).
+    { unfold api_edit in *. destruct (pstep M (a_p s) o) as [p' r]. destruct r; simpl in *; try discriminate; reflexivity. }
+    rewrite E. exact I.
+  - assert (E : fst (api_edit M s o) = s).
+    { unfold api_edit in *. destruct (pstep M (a_p s) o) as [p' r]. destruct r; simpl in *; try discriminate; reflexivity. }
+    rewrite E. exact I.
+Qed.
+
+(* side conditions of a step: only the oracle hypotheses remain - an OPTIMAL answer of a solve comes with a certificate
+   (proved for QSexact_solver in C01, explored for the direct simplex).  Edits need none. *)
 Definition step_ok (s : api) (o : aop) : Prop :=
   match o with
-  | AEdit e => is_delrows e = true -> Inv_cache M (api_step M s o)
+  | AEdit _ => True
   | ASolve _ r => answer_cert M (a_p s) r
   | ALoadBasis _ => True
   | AExactCert _ c => cert M (a_p s) c
   end.
 
-Theorem api_step_cache_partial s o : Inv_cache M s -> step_ok s o -> Inv_cache M (api_step M s o).
+Theorem api_step_cache s o : Inv_dims s -> Inv_cache M s -> step_ok s o -> Inv_cache M (api_step M s o).
 Proof.
-  intros I H. destruct o; simpl in *.
-  - destruct (snd (api_edit M s o)) as [t| |] eqn:R.
-    + destruct (edit_cache_cases s o t R) as [[C _]|[[E C]|F]].
-      * intros c Hc. rewrite C in Hc. discriminate.
-      * intros c Hc. rewrite C in Hc. eapply cert_to_ulp; [exact E|]. apply I. exact Hc.
-      * apply H. exact F.
-    + assert (E : fst (api_edit M s o) = s).
-      { unfold api_edit in *. destruct (pstep M (a_p s) o) as [p' r]. destruct r; simpl in *; try discriminate; reflexivity. }
-      rewrite E. exact I.
-    + assert (E : fst (api_edit M s o) = s).
-      { unfold api_edit in *. destruct (pstep M (a_p s) o) as [p' r]. destruct r; simpl in *; try discriminate; reflexivity. }
-      rewrite E. exact I.
+  intros D I H. destruct o; simpl in *.
+  - apply api_edit_cache; assumption.
   - unfold api_solve.
     destruct (match a_basis s, a_cache s with Some _, Some _ => (negb dual || a_factorok s)%bool | _, _ => false end); [exact I|].
     assert (G : Inv_cache M {| a_p := a_p s; a_basis := Some (an_basis r);
                                a_cache := if (an_status r =? ST_OPTIMAL)%Z then Some (an_sol r) else None;
-                               a_qstatus := an_status r; a_factorok := true |}).
+                               a_qstatus := an_status r; a_factorok := true; a_rn := an_rn r |}).
     { intros c Hc. simpl in *. destruct (an_status r =? ST_OPTIMAL)%Z eqn:E; [|discriminate]. inversion Hc; subst.
       apply H. apply Z.eqb_eq. exact E. }
     destruct (a_basis s) as [b|]; [|exact G]. destruct (dims_ok_b (a_p s) b); [exact G|]. exact I.
@@ -447,20 +520,31 @@ Qed.
 Fixpoint ops_ok (s : api) (l : list aop) : Prop :=
   match l with [] => True | o :: r => step_ok s o /\ ops_ok (api_step M s o) r end.
 
-Theorem api_run_cache_partial l : forall s, Inv_cache M s -> ops_ok s l -> Inv_cache M (api_run M s l).
+(* the cache is an exact optimality certificate of the LP as it now stands, after every history; the sizes of the
+   cache (Inv_dims) travel with it: the repacking of a delete-rows call is index arithmetic on vectors of the right size *)
+Theorem api_run_cache l : forall s, Inv_dims s -> Inv_cache M s -> ops_dims s l -> ops_ok s l ->
+  Inv_dims (api_run M s l) /\ Inv_cache M (api_run M s l).
 Proof.
-  unfold api_run. induction l as [|o r IH]; simpl; intros s I H; [exact I|]. destruct H as [H1 H2].
-  apply IH; [|exact H2]. apply api_step_cache_partial; assumption.
+  unfold api_run. induction l as [|o r IH]; simpl; intros s D I HD H; [split; assumption|]. destruct HD as [HD1 HD2]. destruct H as [H1 H2].
+  apply IH; [| |exact HD2|exact H2].
+  - apply api_step_dims; [exact D|]. simpl. split; [exact HD1|exact Logic.I].
+  - apply api_step_cache; assumption.
 Qed.
 
 (* what an accessor returns between an edit and the next solve is (part of) a certificate of the current LP *)
-Corollary accessors_between_edit_and_solve_partial s l x :
-  Inv_cache M s -> ops_ok s l -> acc_x (api_run M s l) = Some x ->
+Corollary accessors_between_edit_and_solve s l x :
+  Inv_dims s -> Inv_cache M s -> ops_dims s l -> ops_ok s l -> acc_x (api_run M s l) = Some x ->
   exists c, cert M (a_p (api_run M s l)) c /\ ca_x c = x.
 Proof.
-  intros I H E. pose proof (api_run_cache_partial l s I H) as J. unfold acc_x in E.
+  intros D I HD H E. destruct (api_run_cache l s D I HD H) as [_ J]. unfold acc_x in E.
   destruct (a_cache (api_run M s l)) as [c|] eqn:C; [|discriminate]. inversion E; subst. exists c. split; [apply J; exact C|reflexivity].
 Qed.
+
+(* the same for the whole served solution: x, pi, slack and the value together are a certificate *)
+Corollary solution_between_edit_and_solve s l c :
+  Inv_dims s -> Inv_cache M s -> ops_dims s l -> ops_ok s l -> acc_solution (api_run M s l) = Some c ->
+  cert M (a_p (api_run M s l)) c.
+Proof. intros D I HD H E. destruct (api_run_cache l s D I HD H) as [_ J]. apply J. exact E. Qed.
 
 (* two certified answers for the same LP carry the same value: the re-solve equals the fresh solve *)
 Theorem resolve_eq_fresh p c1 c2 : cert M p c1 -> cert M p c2 -> ca_val c1 == ca_val c2.
